@@ -261,6 +261,9 @@ def run(ctx, rep):
                 rep.ob('D-local', 'mut-operand:%s' % name, False, '%s takes a mutable reference to operand geometry: %s' % (name, t),
                        loc=f.bodies[name].loc(bj['line_lo']))
 
+    # thread confinement of the per-call state / results are plain data (type-level witnesses)
+    import witness
+    witness.check(ctx, rep, ['WSend', 'WSendNeg', 'WSyncNeg', 'WSyncPos'], rule='D-local')
     # positive controls: every zero-count scan must fire on the fixture crate
     fx = ctx.fixture()
     if fx is not None:
